@@ -96,6 +96,21 @@ def pred(x):
 SCENARIOS = ('dict-keys', 'custom-nested', 'odict-ddict', 'seq-mix', 'mixed-keys')
 
 
+def _distinct_metas(o, out):
+    # (module level on purpose: a closure over the World would form a reference cycle and delay its release)
+    if isinstance(o, CX):
+        o.meta = Meta(o.meta.v)
+        out.append(o.meta)
+        for c in o.children:
+            _distinct_metas(c, out)
+    elif isinstance(o, dict):
+        for c in o.values():
+            _distinct_metas(c, out)
+    elif isinstance(o, (list, tuple, deque)):
+        for c in o:
+            _distinct_metas(c, out)
+
+
 class World:
     def __init__(self, scenario):
         ensure_registered()
@@ -124,13 +139,17 @@ class World:
         self.kw = {'is_leaf': pred, 'namespace': NS}
         self.leaves_flat, self.spec = optree.tree_flatten(self.tree, **self.kw)
         self.rest = optree.tree_map(lambda x: (x, Leaf(50)), self.tree, **self.kw)
+        # the custom nodes of `rest` carry EQUAL BUT DISTINCT metadata objects, so that matching rest against the
+        # treespec has to call the user's metadata __eq__ (identical objects never reach it)
+        self.rest_metas = []
+        _distinct_metas(self.rest, self.rest_metas)
         self.rspec = optree.tree_structure(self.rest, **self.kw)
         self.inner = optree.tree_structure((0, [0]), namespace=NS)
         self.composed = optree.tree_map(lambda x: (x, [Leaf(60)]), self.tree, **self.kw)
         self.containers = []
         self._collect(self.tree)
         self._collect(self.rest)
-        self.tracked = [*L, *self.metas, *self.keys, box, *box, self.tree, self.rest, self.spec, self.rspec, self.inner,
+        self.tracked = [*L, *self.metas, *self.rest_metas, *self.keys, box, *box, self.tree, self.rest, self.spec, self.rspec, self.inner,
                         self.composed, *self.containers, cx_flatten, cx_unflatten, pred, *self.leaves_flat]
 
     def _collect(self, o):
